@@ -71,6 +71,17 @@ CHECKS = {
         design_ref='DESIGN.md section 5 C01, section 3',
         note=('Trusted: vf/refsem.py. Exploration only: models have <= 3 worlds / constants, sentences depth <= 3; limited '
               'outcomes are inconclusive. B3E-family biconditional rules are open known findings.')),
+    'C02': dict(
+        category='exploration',
+        technique='Hypothesis argument generation x options x tie-break schedules; library-built countermodels re-evaluated by an independent reference evaluator (differential oracle)',
+        text=('Random first-order / modal arguments (three profiles, one biased to several necessity-type nodes) are proved '
+              'under random options and schedules; for every limit-free open branch of an invalid completed tableau the '
+              'model the library builds is read as raw data and every node of the branch, the frame condition and the '
+              'countermodel claim are re-evaluated with vf/refsem.py, and the library evaluator is compared with it. An '
+              'unsaturated branch shows up as a node its own model falsifies.'),
+        design_ref='DESIGN.md section 5 C02, section 3',
+        note=('Trusted: vf/refsem.py, the unassigned-value convention per logic. FDE-family evaluator differences on N/B '
+              'pairs are the C07 known finding and are excluded by construction (counted).')),
 }
 
 NOT_YET = 'check not built yet in this session (planned, see DESIGN.md section 5); no claim is made'
